@@ -49,6 +49,7 @@ def run(ctx):
     ctx.rule("C02.R5", "K3", "send_headers precedes every body send")
     ctx.rule("C02.R6", "K10", "list-valued Connection field compared per element over all field lines")
     ctx.rule("C02.R7", "K1", "the file wrapper's iteration (fallback of write_file) ends only when read() returned nothing")
+    ctx.rule("C02.R8", "K4", "after start_response the framing state (response_length, upgrade, stored headers) is exactly what the accepted header list says -- on a first call and on a restart with exc_info alike")
     r1(ctx)
     r2(ctx)
     r3(ctx)
@@ -56,6 +57,50 @@ def run(ctx):
     r5(ctx)
     r6(ctx)
     r7(ctx)
+    r8(ctx)
+
+
+def r8(ctx):
+    """evaluated: Response.start_response on concrete header lists, from a fresh and from a used Response"""
+    repo = ctx.repo
+    f = ctx.fn(repo.func(RESP + ".start_response"))
+    g = f.cfg
+    ST, HD, EXC = f.params[1], f.params[2], f.params[3]
+    tracked = ["self.response_length", "self.upgrade", "self.headers", "self.status", "self.chunked", "self.must_close"]
+    lists = {
+        "plain": (("X-A", "b"),),
+        "content-length": (("Content-Length", "7"), ("X-A", "b")),
+        "upgrade": (("Connection", "Upgrade"), ("Upgrade", "websocket")),
+        "none": (),
+    }
+    pre_states = {
+        "first call": {"self.status": None, "self.headers": (), "self.response_length": None, "self.upgrade": False, "self.headers_sent": False, EXC: None},
+        "restart (exc_info, head not sent)": {"self.status": "200 OK", "self.headers": (("Content-Length", "5"), ("X-Old", "1")), "self.response_length": 5, "self.upgrade": True,
+                                               "self.headers_sent": False, EXC: ("T", "V", "TB")},
+    }
+    rows = []
+    for pname, pre in pre_states.items():
+        for lname, hdrs in lists.items():
+            env = dict(pre)
+            env.update({ST: "500 Oops", HD: hdrs, "self.req.version": (1, 1), "self.req.method": "GET", "self.must_close": False, "self.chunked": False})
+            ex = Explorer(f, tracked=tracked, inline_depth=3)
+            outs = ex.run(g.entry, env)
+            got = set()
+            for o in outs:
+                if o.kind != "return":
+                    got.add(o.kind)
+                    continue
+                hs = o.env.get("self.headers")
+                got.add((o.env.get("self.response_length"), o.env.get("self.upgrade"), tuple(hs) if isinstance(hs, (tuple, list)) else "U"))
+            want_len = 7 if lname == "content-length" else None
+            want_up = lname == "upgrade"
+            want_h = {"plain": (("X-A", "b"),), "content-length": (("Content-Length", "7"), ("X-A", "b")), "upgrade": (("Upgrade", "websocket"),), "none": ()}[lname]
+            want = (want_len, want_up, want_h)
+            rows.append({"call": pname, "headers": lname, "state": sorted(map(str, got)), "required": str(want)})
+            ctx.check("C02.R8", got == {want}, key(f, "state|%s|%s" % (pname, lname)), site(f, text="%s with %s header list" % (pname, lname)),
+                      "%s with header list %s leaves (response_length, upgrade, headers) = %s, required %s: the head that will be sent and the body framing disagree "
+                      "(stale Content-Length / headers of the replaced response)" % (pname, list(hdrs), sorted(map(str, got)), want), str(want))
+    ctx.table("C02.R8 start_response state", rows)
 
 
 STATUS_CLASS = {100: "1xx", 101: "1xx", 199: "1xx", 200: "other", 204: "204", 304: "304", 404: "other", 500: "other"}
